@@ -716,5 +716,524 @@ theorem trailSep_del_spec (lines : List Line) (ln col endLn endCol : Nat) (sep :
         exact ⟨fun _ => trivial, fun _ => trivial, by intro l a b h; simp at h⟩
     · simp [hp]
 
-end Pfst.Sep
+/-! ## inserting text into one line -/
 
+/-- `l[:c] + s + l[c:]` -/
+def insLine (l : Line) (c : Nat) (s : Line) : Line := l.take c ++ s ++ l.drop c
+
+theorem putSrc_ins (lines : List Line) (l c : Nat) (s : Line) :
+    Pfst.Text.putSrc lines [s] l c l c = lines.set l (insLine (lineAt lines l) c s) := by
+  simp [Pfst.Text.putSrc, insLine, Pfst.Text.lineAt, lineAt]
+
+theorem lineAt_set {lines : List Line} {l : Nat} (hl : l < lines.length) (x : Line) (i : Nat) :
+    lineAt (lines.set l x) i = if i = l then x else lineAt lines i := by
+  unfold lineAt
+  by_cases h : i = l
+  · subst h; simp [List.getD_eq_getElem?_getD, hl]
+  · simp [List.getD_eq_getElem?_getD, List.getElem?_set_ne (Ne.symm h), h]
+
+theorem insLine_length (l : Line) (c : Nat) (s : Line) : (insLine l c s).length = l.length + s.length := by
+  unfold insLine; simp; omega
+
+/-- the window of a line into which `s` was inserted at `start + k` (inside the window), with the end bound moved
+by `|s|`, is the old window with `s` inserted at `k` -/
+theorem win_insLine {l : Line} {p ep k : Nat} (s : Line) (hp : p ≤ l.length) (hpep : p ≤ ep)
+    (hk : k ≤ (win l p ep).length) :
+    win (insLine l (p + k) s) p (ep + s.length) = (win l p ep).take k ++ s ++ (win l p ep).drop k := by
+  have hwl := win_length l p ep
+  have hpe : min p l.length ≤ min ep l.length := by omega
+  have hd := win_decomp l p ep hpe
+  have hmp : min p l.length = p := by omega
+  rw [hmp] at hd
+  generalize hW : win l p ep = W at *
+  generalize hP : l.take p = P at *
+  generalize hQ : l.drop (min ep l.length) = Q at *
+  have hPl : P.length = p := by rw [← hP]; simp; omega
+  have hins : insLine l (p + k) s = P ++ (W.take k ++ s ++ W.drop k) ++ Q := by
+    unfold insLine
+    rw [hd]
+    have e1 : (P ++ W ++ Q).take (p + k) = P ++ W.take k := by
+      rw [List.append_assoc, ← hPl, Pfst.Text.take_len_add, List.take_append_of_le_length hk]
+    have e2 : (P ++ W ++ Q).drop (p + k) = W.drop k ++ Q := by
+      rw [List.append_assoc, ← hPl, Pfst.Text.drop_len_add, List.drop_append_of_le_length hk]
+    rw [e1, e2]; simp
+  have hlen : (insLine l (p + k) s).length = l.length + s.length := insLine_length _ _ _
+  unfold win
+  have h1 : min (ep + s.length) (insLine l (p + k) s).length = P.length + (W.take k ++ s ++ W.drop k).length := by
+    rw [hlen, hPl]; simp; omega
+  have h2 : min p (insLine l (p + k) s).length = P.length := by rw [hlen, hPl]; omega
+  rw [h1, h2]
+  exact take_drop_of_decomp hins
+
+/-- the lines after inserting `s` at `(l, c)` -/
+def insLines (lines : List Line) (l c : Nat) (s : Line) : List Line := lines.set l (insLine (lineAt lines l) c s)
+
+/-- the end bound after the insertion (what re-reading the bound from the offset tree gives) -/
+def insEnd (l : Nat) (s : Line) (endLn endCol : Nat) : Nat := if l = endLn then endCol + s.length else endCol
+
+theorem lineAt_insLines {lines : List Line} {l : Nat} (hl : l < lines.length) (c : Nat) (s : Line) (i : Nat) :
+    lineAt (insLines lines l c s) i = if i = l then insLine (lineAt lines l) c s else lineAt lines i :=
+  lineAt_set hl _ i
+
+/-- windows of the other lines are unchanged -/
+theorem lineWin_insLines_other {lines : List Line} {l : Nat} (hl : l < lines.length) (c : Nat) (s : Line)
+    (ln col endLn endCol i : Nat) (hi : i ≠ l) :
+    lineWin (insLines lines l c s) ln col endLn (insEnd l s endLn endCol) i = lineWin lines ln col endLn endCol i ∧
+    wstart (insLines lines l c s) ln col i = wstart lines ln col i := by
+  unfold lineWin wstart insEnd
+  rw [lineAt_insLines hl, if_neg hi]
+  by_cases he : i = endLn
+  · have : l ≠ endLn := by omega
+    simp [he, this]
+  · simp [he]
+
+/-- the window of the line itself: `s` inserted at `k` -/
+theorem lineWin_insLines_self {lines : List Line} {l : Nat} (hl : l < lines.length) (s : Line)
+    {ln col endLn endCol k : Nat} (hcol : l = ln → col ≤ (lineAt lines ln).length)
+    (hse : l = ln → l = endLn → col ≤ endCol)
+    (hk : k ≤ (lineWin lines ln col endLn endCol l).length) :
+    lineWin (insLines lines l (wstart lines ln col l + k) s) ln col endLn (insEnd l s endLn endCol) l
+      = (lineWin lines ln col endLn endCol l).take k ++ s ++ (lineWin lines ln col endLn endCol l).drop k ∧
+    wstart (insLines lines l (wstart lines ln col l + k) s) ln col l = wstart lines ln col l := by
+  have hws : wstart lines ln col l ≤ (lineAt lines l).length := by unfold wstart; omega
+  have hw : wstart (insLines lines l (wstart lines ln col l + k) s) ln col l = wstart lines ln col l := by
+    unfold wstart
+    rw [lineAt_insLines hl, if_pos rfl, insLine_length]
+    by_cases h : l = ln
+    · have := hcol h
+      subst h
+      simp only [↓reduceIte] at *
+      omega
+    · simp [h]
+  refine ⟨?_, hw⟩
+  rw [lineWin_eq, hw, lineAt_insLines hl, if_pos rfl]
+  have hb : wbound (insLines lines l (wstart lines ln col l + k) s) endLn (insEnd l s endLn endCol) l
+      = wbound lines endLn endCol l + s.length := by
+    unfold wbound insEnd
+    rw [lineAt_insLines hl, if_pos rfl, insLine_length]
+    by_cases h : l = endLn <;> simp [h]
+  rw [hb, lineWin_eq] at *
+  have hwb : wstart lines ln col l ≤ wbound lines endLn endCol l := by
+    unfold wbound
+    by_cases h : l = endLn
+    · simp only [h, ↓reduceIte]
+      unfold wstart
+      by_cases h2 : endLn = ln
+      · have := hse (h.trans h2) h
+        simp only [h2, ↓reduceIte]; omega
+      · simp [h2]
+    · simp only [h, ↓reduceIte]; exact hws
+  exact win_insLine s hws hwb hk
+
+/-! ## `_maybe_ins_sep` -/
+
+/-- a window is its leading blanks / closing parentheses, its code run, and a rest that does not start with a code
+character -/
+theorem win_three (w : Line) :
+    w = w.takeWhile isSkip ++ codeRun w ++ (afterSkip w).dropWhile isCode ∧
+    (∀ c ∈ w.takeWhile isSkip, isSkip c = true) ∧ (codeRun w).all isCode = true ∧
+    (∀ x, ((afterSkip w).dropWhile isCode).head? = some x → isCode x = false) ∧
+    (∀ x, (codeRun w).head? = some x → isSkip x = false) := by
+  refine ⟨?_, fun c hc => mem_takeWhile_true hc, List.all_eq_true.mpr (fun c hc => mem_takeWhile_true hc),
+    fun x hx => head?_dropWhile_false hx, ?_⟩
+  · unfold codeRun afterSkip
+    rw [List.append_assoc, List.takeWhile_append_dropWhile, List.takeWhile_append_dropWhile]
+  · intro x hx
+    unfold codeRun at hx
+    cases ha : afterSkip w with
+    | nil => rw [ha] at hx; simp at hx
+    | cons c t =>
+      rw [ha] at hx
+      have hc : isSkip c = false := afterSkip_head_not_skip (w := w) (by rw [ha]; rfl)
+      rw [List.takeWhile_cons] at hx
+      split at hx
+      · simp at hx; subst hx; exact hc
+      · simp at hx
+
+/-- the bound starts before it ends -/
+def StartLeEnd (ln col endLn endCol : Nat) : Prop := ln < endLn ∨ (ln = endLn ∧ col ≤ endCol)
+
+/-- the target seen from `(l, c)` in lines whose window there is `pre ++ sep ++ tail` -/
+theorem target_at_inserted {lines : List Line} {l c endLn endCol : Nat} {sep pre tail : Line}
+    (hw : lineWin lines l c endLn endCol l = pre ++ sep ++ tail) (hws : wstart lines l c l = c) (hle : l ≤ endLn)
+    (hpre : ∀ x ∈ pre, isSkip x = true) (sne : sep ≠ []) (scode : sep.all isCode = true)
+    (shd : sep.head? ≠ some ')') :
+    Target lines l c endLn endCol sep l (c + pre.length) := by
+  have hsplit : sep ++ tail = sep ++ tail.takeWhile isCode ++ tail.dropWhile isCode := by
+    rw [List.append_assoc, List.takeWhile_append_dropWhile]
+  have hw' : lineWin lines l c endLn endCol l = pre ++ (sep ++ tail.takeWhile isCode) ++ tail.dropWhile isCode := by
+    rw [hw, List.append_assoc, hsplit]; simp
+  have hrun : (sep ++ tail.takeWhile isCode).all isCode = true := by
+    apply List.all_eq_true.mpr
+    intro x hx
+    rcases List.mem_append.mp hx with hx | hx
+    · exact List.all_eq_true.mp scode x hx
+    · exact mem_takeWhile_true hx
+  have hhd : (sep ++ tail.takeWhile isCode).head? ≠ some ')' := by
+    cases sep with
+    | nil => contradiction
+    | cons a t => simpa using shd
+  obtain ⟨_, f2, f3⟩ := run_facts hw' hpre (by simp [sne]) hrun hhd (fun x hx => head?_dropWhile_false hx)
+  exact ⟨Nat.le_refl _, hle, fun i a b => absurd a (by omega), by rw [f3]; simp [sne], by rw [f2, hws],
+    by rw [f3]; exact List.prefix_append _ _⟩
+
+/-- everything the scan stepped over is still stepped over after text was inserted at the point it reached, and the
+window seen from that point starts with the inserted text -/
+theorem ins_at_skipTo {lines : List Line} {ln col endLn endCol l c : Nat}
+    (h : SkipTo lines ln col endLn endCol l c) (hl : l < lines.length) (hcol : col ≤ (lineAt lines ln).length)
+    (hse : StartLeEnd ln col endLn endCol) (s : Line) :
+    SkipTo (insLines lines l c s) ln col endLn (insEnd l s endLn endCol) l c ∧
+    ∃ B, lineWin (insLines lines l c s) l c endLn (insEnd l s endLn endCol) l = s ++ B ∧
+      wstart (insLines lines l c s) l c l = c := by
+  obtain ⟨k, hc, hk, hsk⟩ := h.here
+  subst hc
+  have hse' : l = ln → l = endLn → col ≤ endCol := by
+    intro a b; rcases hse with hse | hse <;> omega
+  obtain ⟨w1, w2⟩ := lineWin_insLines_self hl s (fun e => hcol) hse' hk
+  have hlen : ((lineWin lines ln col endLn endCol l).take k).length = k := by simp; omega
+  have hw1' : lineWin (insLines lines l (wstart lines ln col l + k) s) ln col endLn (insEnd l s endLn endCol) l
+      = (lineWin lines ln col endLn endCol l).take k ++ (s ++ (lineWin lines ln col endLn endCol l).drop k) := by
+    rw [w1]; simp
+  obtain ⟨a1, a2, _⟩ := lineWin_advance hw1'
+  rw [w2, hlen] at a1 a2
+  refine ⟨⟨h.lo, h.hi, ?_, k, by rw [w2], ?_, ?_⟩, _, a1, a2⟩
+  · intro i hi1 hi2
+    rw [(lineWin_insLines_other hl _ s ln col endLn endCol i (by omega)).1]
+    exact h.before i hi1 hi2
+  · rw [w1]; simp; omega
+  · intro x hx
+    rw [hw1', List.take_left' hlen] at hx
+    exact hsk x hx
+
+/-- **inserting the separator where the scan stopped makes it the target** -/
+theorem target_after_insert {lines : List Line} {ln col endLn endCol l c : Nat}
+    (h : SkipTo lines ln col endLn endCol l c) (hl : l < lines.length) (hcol : col ≤ (lineAt lines ln).length)
+    (hse : StartLeEnd ln col endLn endCol) {sep pre post : Line}
+    (hpre : ∀ x ∈ pre, isSkip x = true) (sne : sep ≠ []) (scode : sep.all isCode = true)
+    (shd : sep.head? ≠ some ')') :
+    Target (insLines lines l c (pre ++ sep ++ post)) ln col endLn (insEnd l (pre ++ sep ++ post) endLn endCol) sep
+      l (c + pre.length) := by
+  obtain ⟨sk, B, hw, hws⟩ := ins_at_skipTo h hl hcol hse (pre ++ sep ++ post)
+  rw [target_skipTo sk]
+  exact target_at_inserted (tail := post ++ B) (by rw [hw]; simp) hws h.hi hpre sne scode shd
+
+/-- **a blank inserted right behind the separator leaves it the target** -/
+theorem target_space_after {lines : List Line} {ln col endLn endCol pl pc : Nat} {sep : Line}
+    (t : Target lines ln col endLn endCol sep pl pc) (sne : sep ≠ []) (hl : pl < lines.length)
+    (hcol : col ≤ (lineAt lines ln).length) (hse : StartLeEnd ln col endLn endCol) :
+    Target (insLines lines pl (pc + sep.length) [' ']) ln col endLn (insEnd pl [' '] endLn endCol) sep pl pc := by
+  obtain ⟨h3, hbody, hrun, hrest, hhead⟩ := win_three (lineWin lines ln col endLn endCol pl)
+  obtain ⟨run2, hr2⟩ := t.pre
+  have tpos := t.pos
+  have hsl : skipLen (lineWin lines ln col endLn endCol pl)
+      = ((lineWin lines ln col endLn endCol pl).takeWhile isSkip).length := rfl
+  generalize hW : lineWin lines ln col endLn endCol pl = W at *
+  generalize hbd : W.takeWhile isSkip = body at *
+  generalize hrs : (afterSkip W).dropWhile isCode = rest3 at *
+  rw [← hr2] at h3
+  have hk : skipLen W + sep.length ≤ W.length := by
+    have := congrArg List.length h3
+    simp only [List.length_append] at this
+    omega
+  have hse' : pl = ln → pl = endLn → col ≤ endCol := by
+    intro a b; rcases hse with hse | hse <;> omega
+  have hpos : pc + sep.length = wstart lines ln col pl + (skipLen W + sep.length) := by rw [tpos]; omega
+  rw [hpos]
+  have hk' : skipLen W + sep.length ≤ (lineWin lines ln col endLn endCol pl).length := by rw [hW]; exact hk
+  obtain ⟨w1, w2⟩ := lineWin_insLines_self hl [' '] (fun e => hcol) hse' hk'
+  rw [hW] at w1
+  have e1 : W.take (skipLen W + sep.length) = body ++ sep := by
+    rw [hsl]
+    conv => lhs; rw [h3]
+    rw [List.append_assoc, List.append_assoc, Pfst.Text.take_len_add]
+    simp
+  have e2 : W.drop (skipLen W + sep.length) = run2 ++ rest3 := by
+    rw [hsl]
+    conv => lhs; rw [h3]
+    rw [List.append_assoc, List.append_assoc, Pfst.Text.drop_len_add]
+    simp
+  rw [e1, e2] at w1
+  have hw' : lineWin (insLines lines pl (wstart lines ln col pl + (skipLen W + sep.length)) [' ']) ln col endLn
+      (insEnd pl [' '] endLn endCol) pl = body ++ sep ++ (' ' :: (run2 ++ rest3)) := by
+    rw [w1]; simp
+  have scode : sep.all isCode = true := by
+    apply List.all_eq_true.mpr
+    intro x hx
+    exact List.all_eq_true.mp hrun x (by rw [← hr2]; exact List.mem_append_left _ hx)
+  have shd : sep.head? ≠ some ')' := by
+    cases sep with
+    | nil => contradiction
+    | cons a r =>
+      intro hh
+      simp at hh; subst hh
+      have := hhead ')' (by rw [← hr2]; rfl)
+      simp [isSkip] at this
+  obtain ⟨_, f2, f3⟩ := run_facts hw' hbody sne scode shd (by intro x hx; simp at hx; subst hx; decide)
+  refine ⟨t.lo, t.hi, ?_, by rw [f3]; exact sne, ?_, by rw [f3]; exact List.prefix_refl _⟩
+  · intro i hi1 hi2
+    rw [(lineWin_insLines_other hl _ [' '] ln col endLn endCol i (by omega)).1]
+    exact t.before i hi1 hi2
+  · rw [f2, w2, tpos, hsl]
+
+theorem insLine_get_in (l : Line) (c : Nat) (s : Line) (hc : c ≤ l.length) (j : Nat) (hj : j < s.length) :
+    (insLine l c s)[c + j]? = s[j]? := by
+  unfold insLine
+  have h1 : (l.take c).length = c := by simp; omega
+  rw [List.append_assoc, List.getElem?_append_right (by omega), h1]
+  have : c + j - c = j := by omega
+  rw [this, List.getElem?_append_left hj]
+
+theorem insLine_get_after (l : Line) (c : Nat) (s : Line) (hc : c ≤ l.length) :
+    (insLine l c s)[c + s.length]? = l[c]? := by
+  unfold insLine
+  have h1 : (l.take c ++ s).length = c + s.length := by simp; omega
+  rw [List.getElem?_append_right (by omega), h1]
+  simp
+
+/-- the position the scan reached lies inside the end bound -/
+theorem SkipTo.col_le_end {lines : List Line} {ln col endLn endCol l c : Nat}
+    (h : SkipTo lines ln col endLn endCol l c) (hse : StartLeEnd ln col endLn endCol) (he : l = endLn) :
+    c ≤ endCol := by
+  obtain ⟨k, hc, hk, _⟩ := h.here
+  have hl := lineWin_length lines ln col endLn endCol l
+  have hb : wbound lines endLn endCol l = endCol := by unfold wbound; simp [he]
+  rw [hb] at hl
+  have hws : wstart lines ln col l ≤ endCol := by
+    unfold wstart
+    by_cases h2 : l = ln
+    · simp only [h2, ↓reduceIte]
+      rcases hse with hse | hse <;> omega
+    · simp [h2]
+  omega
+
+/-- the end of the fragment lies inside the end bound -/
+theorem FragAt.bound_end {lines : List Line} {ln col endLn endCol cln ccol : Nat} {src : Line}
+    (h : FragAt lines ln col endLn endCol cln ccol src) (he : cln = endLn) : ccol + src.length ≤ endCol := by
+  obtain ⟨sp, rest, hw, _, _, hcc⟩ := h.here
+  have hl := lineWin_length lines ln col endLn endCol cln
+  rw [hw] at hl
+  simp only [List.length_append] at hl
+  have hb : wbound lines endLn endCol cln = endCol := by unfold wbound; simp [he]
+  rw [hb] at hl
+  have hsl : 0 < src.length := List.length_pos_iff.mpr h.ne
+  omega
+
+/-- the text `_maybe_ins_sep` puts when the separator is missing: `sep` itself, with a blank in front unless it is a
+comma, and a blank behind if `post` -/
+def newSepText (sep : Line) (post : Bool) : Line :=
+  (if sep != [','] then [' '] else []) ++ sep ++ (if post then [' '] else [])
+
+/-- `space and ((ln == end_ln and col == end_col) or not _re_one_space_or_end.match(lines[ln], col))` -/
+def wantSpace (lines : List Line) (space : Bool) (endLn endCol l c : Nat) : Bool :=
+  space && ((l == endLn && c == endCol) || !oneSpaceOrEnd (lineAt lines l) c)
+
+/-- **The three things `_maybe_ins_sep` can do.**  (A) the separator follows and nothing is put; (B) the separator
+follows and one blank is put right behind it; (C) no separator follows: the separator text is put at the point the scan
+reached (behind the closing parentheses that follow the span). -/
+theorem maybeInsSep_cases (lines : List Line) (ln col : Nat) (space : Bool) (endLn endCol : Nat) (sep : Line)
+    (hle : ln ≤ endLn) (hcol : col ≤ (lineAt lines ln).length) :
+    (∃ pl pc, Target lines ln col endLn endCol sep pl pc ∧
+      wantSpace lines space endLn endCol pl (pc + sep.length) = false ∧
+      maybeInsSep lines ln col space endLn endCol sep = ⟨none, lines⟩) ∨
+    (∃ pl pc, Target lines ln col endLn endCol sep pl pc ∧
+      wantSpace lines space endLn endCol pl (pc + sep.length) = true ∧
+      pl < lines.length ∧ pc + sep.length ≤ (lineAt lines pl).length ∧ (pl = endLn → pc + sep.length ≤ endCol) ∧
+      maybeInsSep lines ln col space endLn endCol sep
+        = ⟨some (pl, pc + sep.length, [' ']), insLines lines pl (pc + sep.length) [' ']⟩) ∨
+    ((∀ pl pc, ¬ Target lines ln col endLn endCol sep pl pc) ∧
+      ∃ l c, SkipTo lines ln col endLn endCol l c ∧
+        maybeInsSep lines ln col space endLn endCol sep
+          = ⟨some (l, c, newSepText sep (wantSpace lines space endLn endCol l c)),
+             insLines lines l c (newSepText sep (wantSpace lines space endLn endCol l c))⟩) := by
+  obtain ⟨s1, s2, s3⟩ := sepScan_spec lines endLn endCol (sepFuel lines ln endLn) ln col hle hcol
+    (mu_lt_sepFuel lines ln col endLn)
+  have hnew : ∀ l c, insNew lines endLn endCol sep space l c
+      = ⟨some (l, c, newSepText sep (wantSpace lines space endLn endCol l c)),
+         insLines lines l c (newSepText sep (wantSpace lines space endLn endCol l c))⟩ := by
+    intro l c
+    unfold insNew newSepText wantSpace insLines
+    simp only [putSrc_ins]
+    by_cases h1 : (sep != [',']) = true <;>
+      by_cases h2 : (space && (l == endLn && c == endCol || !oneSpaceOrEnd (lineAt lines l) c)) = true <;>
+      simp [h1, h2]
+  unfold maybeInsSep
+  generalize sepScan lines endLn endCol (sepFuel lines ln endLn) ln col = r at *
+  cases hf : r.frag with
+  | none =>
+    simp only [hf]
+    refine Or.inr (Or.inr ⟨?_, r.ln, r.col, s1, hnew _ _⟩)
+    intro pl pc t
+    exact no_target_of_skippable (s2 hf) sep pl pc ((target_skipTo s1 sep pl pc).mp t)
+  | some q =>
+    obtain ⟨cln, ccol, src⟩ := q
+    have hfa := s3 cln ccol src hf
+    simp only [hf]
+    unfold insTail
+    by_cases hp : sep.isPrefixOf src = true
+    · have hp' : sep <+: src := List.isPrefixOf_iff_prefix.mp hp
+      have ht : Target lines ln col endLn endCol sep cln ccol :=
+        (target_skipTo s1 sep cln ccol).mpr ((target_fragAt hfa sep cln ccol).mpr ⟨rfl, rfl, hp'⟩)
+      simp only [hp, ↓reduceIte]
+      by_cases hws : wantSpace lines space endLn endCol cln (ccol + sep.length) = true
+      · have hws' := hws
+        unfold wantSpace at hws'
+        simp only [hws', ↓reduceIte]
+        obtain ⟨_, b2, b3, _⟩ := hfa.bounds
+        have hsl : sep.length ≤ src.length := hp'.length_le
+        refine Or.inr (Or.inl ⟨cln, ccol, ht, hws, b3, by omega, ?_, ?_⟩)
+        · intro he; have := hfa.bound_end he; omega
+        · rw [putSrc_ins]; rfl
+      · have hws' : wantSpace lines space endLn endCol cln (ccol + sep.length) = false := by simpa using hws
+        have hws2 := hws'
+        unfold wantSpace at hws2
+        simp only [hws2, Bool.false_eq_true, ↓reduceIte]
+        exact Or.inl ⟨cln, ccol, ht, hws', trivial⟩
+    · have hp' : ¬ sep <+: src := fun h => hp (List.isPrefixOf_iff_prefix.mpr h)
+      simp only [hp, Bool.false_eq_true, ↓reduceIte]
+      refine Or.inr (Or.inr ⟨?_, r.ln, r.col, s1, hnew _ _⟩)
+      intro pl pc t
+      have := (target_fragAt hfa sep pl pc).mp ((target_skipTo s1 sep pl pc).mp t)
+      exact hp' this.2.2
+
+/-- once the separator follows and no blank is wanted behind it, `_maybe_ins_sep` does nothing -/
+theorem maybeInsSep_settled {lines : List Line} {ln col : Nat} {space : Bool} {endLn endCol : Nat} {sep : Line}
+    {pl pc : Nat} (hle : ln ≤ endLn) (hcol : col ≤ (lineAt lines ln).length)
+    (t : Target lines ln col endLn endCol sep pl pc)
+    (hw : wantSpace lines space endLn endCol pl (pc + sep.length) = false) :
+    maybeInsSep lines ln col space endLn endCol sep = ⟨none, lines⟩ := by
+  rcases maybeInsSep_cases lines ln col space endLn endCol sep hle hcol with
+    ⟨pl', pc', _, _, h⟩ | ⟨pl', pc', t', hw', _⟩ | ⟨hno, _⟩
+  · exact h
+  · obtain ⟨rfl, rfl⟩ := t.unique t'
+    rw [hw] at hw'; simp at hw'
+  · exact absurd t (hno pl pc)
+
+/-- the end column of the bound after `_maybe_ins_sep` put something (what re-reading the bound from the offset tree
+gives: text put on the last line of the bound moves its end) -/
+def endAfter (put : Option (Nat × Nat × Line)) (endLn endCol : Nat) : Nat :=
+  match put with
+  | none => endCol
+  | some (l, _, s) => insEnd l s endLn endCol
+
+theorem startLeEnd_le {ln col endLn endCol : Nat} (h : StartLeEnd ln col endLn endCol) : ln ≤ endLn := by
+  rcases h with h | h <;> omega
+
+/-- behind freshly put text `a` (+ a blank iff one was wanted at the insertion point) no blank is wanted any more -/
+theorem wantSpace_after_new {lines : List Line} {l c endLn endCol : Nat} {space post : Bool} (a : Line)
+    (hl : l < lines.length) (hc : c ≤ (lineAt lines l).length) (hce : l = endLn → c ≤ endCol)
+    (hpost : wantSpace lines space endLn endCol l c = post) :
+    wantSpace (insLines lines l c (a ++ (if post then [' '] else []))) space endLn
+      (insEnd l (a ++ (if post then [' '] else [])) endLn endCol) l (c + a.length) = false := by
+  unfold wantSpace
+  rw [lineAt_insLines hl, if_pos rfl]
+  cases post with
+  | true =>
+    simp only [↓reduceIte]
+    have hch : (insLine (lineAt lines l) c (a ++ [' ']))[c + a.length]? = some ' ' := by
+      rw [insLine_get_in (lineAt lines l) c (a ++ [' ']) hc a.length (by simp)]
+      simp
+    have hose : oneSpaceOrEnd (insLine (lineAt lines l) c (a ++ [' '])) (c + a.length) = true := by
+      unfold oneSpaceOrEnd; rw [hch]; decide
+    have hne : (l == endLn && c + a.length == insEnd l (a ++ [' ']) endLn endCol) = false := by
+      by_cases he : l = endLn
+      · have := hce he
+        have : c + a.length ≠ insEnd l (a ++ [' ']) endLn endCol := by
+          unfold insEnd; simp only [he, ↓reduceIte, List.length_append, List.length_cons, List.length_nil]; omega
+        simp [this]
+      · have hb2 : (l == endLn) = false := by simp [he]
+        rw [hb2]; rfl
+    simp [hose, hne]
+  | false =>
+    simp only [Bool.false_eq_true, ↓reduceIte, List.append_nil]
+    have hch : (insLine (lineAt lines l) c a)[c + a.length]? = (lineAt lines l)[c]? :=
+      insLine_get_after (lineAt lines l) c a hc
+    have hose : oneSpaceOrEnd (insLine (lineAt lines l) c a) (c + a.length) = oneSpaceOrEnd (lineAt lines l) c := by
+      unfold oneSpaceOrEnd; rw [hch]
+    have hne : (l == endLn && c + a.length == insEnd l a endLn endCol) = (l == endLn && c == endCol) := by
+      have hb : (c + a.length == endCol + a.length) = (c == endCol) := by
+        rw [Bool.eq_iff_iff]; simp
+      by_cases he : l = endLn
+      · unfold insEnd
+        simp only [he, ↓reduceIte, hb]
+      · have hb2 : (l == endLn) = false := by simp [he]
+        rw [hb2]; rfl
+    rw [hose, hne]
+    unfold wantSpace at hpost
+    exact hpost
+
+theorem newSepText_eq (sep : Line) (post : Bool) :
+    newSepText sep post = ((if sep != [','] then [' '] else []) ++ sep) ++ (if post then [' '] else []) := rfl
+
+/-- **After `_maybe_ins_sep` the separator follows the span and no further blank is wanted.** -/
+theorem maybeInsSep_post_aux (lines : List Line) (ln col : Nat) (space : Bool) (endLn endCol : Nat) (sep : Line)
+    (hse : StartLeEnd ln col endLn endCol) (hend : endLn < lines.length) (hcol : col ≤ (lineAt lines ln).length)
+    (sne : sep ≠ []) (scode : sep.all isCode = true) (shd : sep.head? ≠ some ')') :
+    ∃ pl pc,
+      Target (maybeInsSep lines ln col space endLn endCol sep).lines ln col endLn
+        (endAfter (maybeInsSep lines ln col space endLn endCol sep).put endLn endCol) sep pl pc ∧
+      wantSpace (maybeInsSep lines ln col space endLn endCol sep).lines space endLn
+        (endAfter (maybeInsSep lines ln col space endLn endCol sep).put endLn endCol) pl (pc + sep.length) = false ∧
+      ((maybeInsSep lines ln col space endLn endCol sep).put = none → Target lines ln col endLn endCol sep pl pc) ∧
+      (∀ l c s, (maybeInsSep lines ln col space endLn endCol sep).put = some (l, c, s) →
+        pl = l ∧ ((s = [' '] ∧ c = pc + sep.length ∧ Target lines ln col endLn endCol sep pl pc) ∨
+          ((∀ ql qc, ¬ Target lines ln col endLn endCol sep ql qc) ∧
+            pc = c + (if sep != [','] then 1 else 0) ∧ SkipTo lines ln col endLn endCol l c))) := by
+  have hle := startLeEnd_le hse
+  rcases maybeInsSep_cases lines ln col space endLn endCol sep hle hcol with
+    ⟨pl, pc, t, hw, h⟩ | ⟨pl, pc, t, hw, hl, hc2, hce, h⟩ | ⟨hno, l, c, sk, h⟩
+  · rw [h]
+    exact ⟨pl, pc, t, hw, fun _ => t, by intro l c s hh; simp at hh⟩
+  · rw [h]
+    refine ⟨pl, pc, target_space_after t sne hl hcol hse, ?_, by intro hh; simp at hh, ?_⟩
+    · simp only [endAfter]
+      have := wantSpace_after_new (lines := lines) (l := pl) (c := pc + sep.length) (endLn := endLn)
+        (endCol := endCol) (space := space) (post := true) [] hl hc2 hce hw
+      simpa using this
+    · intro l c s hh
+      simp only [Option.some.injEq, Prod.mk.injEq] at hh
+      obtain ⟨rfl, rfl, rfl⟩ := hh
+      exact ⟨rfl, Or.inl ⟨rfl, rfl, t⟩⟩
+  · rw [h]
+    have hl : l < lines.length := by have := sk.hi; omega
+    have hc : c ≤ (lineAt lines l).length := (skipTo_tail sk).1
+    have hpre : ∀ x ∈ (if sep != [','] then [' '] else []), isSkip x = true := by
+      intro x hx
+      by_cases h1 : (sep != [',']) = true
+      · simp [h1] at hx; subst hx; decide
+      · simp [h1] at hx
+    have hplen : (if (sep != [',']) = true then [' '] else ([] : Line)).length = if sep != [','] then 1 else 0 := by
+      by_cases h1 : (sep != [',']) = true <;> simp [h1]
+    generalize hpost : wantSpace lines space endLn endCol l c = post at *
+    have ht := target_after_insert sk hl hcol hse (post := if post then [' '] else []) hpre sne scode shd
+    have hw := wantSpace_after_new (lines := lines) (l := l) (c := c) (endLn := endLn) (endCol := endCol)
+      (space := space) (post := post) ((if sep != [','] then [' '] else []) ++ sep) hl hc (sk.col_le_end hse) hpost
+    rw [List.length_append, hplen, ← Nat.add_assoc] at hw
+    rw [hplen] at ht
+    refine ⟨l, c + (if sep != [','] then 1 else 0), ht, hw, by intro hh; simp at hh, ?_⟩
+    intro l' c' s hh
+    simp only [Option.some.injEq, Prod.mk.injEq] at hh
+    obtain ⟨rfl, rfl, rfl⟩ := hh
+    exact ⟨rfl, Or.inr ⟨hno, rfl, sk⟩⟩
+
+/-- the hypotheses of the scan lemmas hold again for the lines `_maybe_ins_sep` produced -/
+theorem maybeInsSep_keeps_pre (lines : List Line) (ln col : Nat) (space : Bool) (endLn endCol : Nat) (sep : Line)
+    (hse : StartLeEnd ln col endLn endCol) (hend : endLn < lines.length) (hcol : col ≤ (lineAt lines ln).length) :
+    col ≤ (lineAt (maybeInsSep lines ln col space endLn endCol sep).lines ln).length ∧
+    endCol ≤ endAfter (maybeInsSep lines ln col space endLn endCol sep).put endLn endCol := by
+  have hle := startLeEnd_le hse
+  have key : ∀ l c s, l < lines.length → col ≤ (lineAt (insLines lines l c s) ln).length ∧
+      endCol ≤ insEnd l s endLn endCol := by
+    intro l c s hl
+    constructor
+    · rw [lineAt_insLines hl]
+      by_cases h : ln = l
+      · subst h; simp only [↓reduceIte, insLine_length]; omega
+      · simp only [h, ↓reduceIte]; exact hcol
+    · unfold insEnd; split <;> omega
+  rcases maybeInsSep_cases lines ln col space endLn endCol sep hle hcol with
+    ⟨pl, pc, _, _, h⟩ | ⟨pl, pc, _, _, hl, _, _, h⟩ | ⟨_, l, c, sk, h⟩
+  · rw [h]; exact ⟨hcol, Nat.le_refl _⟩
+  · rw [h]; exact key _ _ _ hl
+  · rw [h]; exact key _ _ _ (by have := sk.hi; omega)
+
+end Pfst.Sep
